@@ -12,7 +12,7 @@ def families(tier):
     yield "C10 core product (every %s case)" % ("5th" if tier == "quick" else "1st"), spaces.c10_core(5 if tier == "quick" else 1)
     yield "C13 structured ref states (default layout)", spaces.c13_default_layout(tier)
     yield "C14 directive placements", spaces.c14_short()
-    yield "multi-insertion family", spaces.multi_insertion(big_counts=(5000,) if tier == "thorough" else ())
+    yield "multi-insertion family", spaces.multi_insertion(big_counts=(1000, 5000) if tier == "thorough" else ())
     yield "real corpora", spaces.corpus_files(False, None if tier == "thorough" else 200_000)
     if tier == "thorough":
         yield "C10 all pairs", spaces.c10_pairs()
